@@ -509,7 +509,7 @@ pub fn c11_case(rng: &mut Rng, lazy_f_names: bool) -> CaseOut {
 
 // ------------------------------------------------------------------------------------------- C13
 
-pub fn c13_case(rng: &mut Rng, len_lo: usize, len_hi: usize, with_q: bool) -> CaseOut {
+pub fn c13_case(rng: &mut Rng, len_lo: usize, len_hi: usize, with_q: bool, sparse: bool) -> CaseOut {
     let mut out = CaseOut::default();
     let lang = &LSYM;
     let ns = rng.range(2, 4);
@@ -609,10 +609,11 @@ pub fn c13_case(rng: &mut Rng, len_lo: usize, len_hi: usize, with_q: bool) -> Ca
         // record new equal pairs among handles (sample)
         while slots_at_record.len() < handles.len() {
             let k = slots_at_record.len();
-            slots_at_record.push(eg.find_applied_id(&handles[k]).slots().iter().copied().collect());
+            // (sparse: the returned invocation itself, without canonicalising it)
+            slots_at_record.push(if sparse { handles[k].slots().iter().copied().collect() } else { eg.find_applied_id(&handles[k]).slots().iter().copied().collect() });
         }
         for _ in 0..6 {
-            if handles.len() < 2 {
+            if handles.len() < 2 || sparse {
                 break;
             }
             let (i, j) = (rng.below(handles.len()), rng.below(handles.len()));
@@ -622,6 +623,10 @@ pub fn c13_case(rng: &mut Rng, len_lo: usize, len_hi: usize, with_q: bool) -> Ca
         }
         // re-check: all handles usable, slot sets only shrink; a sliding sample of recorded equalities still holds
         let check_all = step + 1 == len;
+        if sparse && !check_all {
+            // sparse monitoring: old handles are left untouched (no canonicalisation, hence no path compression) until the end
+            continue;
+        }
         let r = guard(|| -> Result<(), (String, String)> {
             for (k, hdl) in handles.iter().enumerate() {
                 let f = eg.find_applied_id(hdl);
@@ -715,7 +720,8 @@ pub fn run(args: &Args, rep: &mut Rep) {
             let lo = args.param_u("len_lo", 30) as usize;
             let hi = args.param_u("len_hi", 120) as usize;
             let with_q = args.param_u("with_q", 0) == 1;
-            drive(args, rep, move |rng, _| c13_case(rng, lo, hi, with_q));
+            let sparse = args.param_u("sparse", 0) == 1;
+            drive(args, rep, move |rng, _| c13_case(rng, lo, hi, with_q, sparse));
         }
     }
 }
